@@ -609,9 +609,9 @@ theorem Ds.add_add {P} (d : Ds P) (a b : List Var) : (d.add a).add b = d.add (a 
 
 theorem step_grids {P X} (cfg : Cfg) (env : Env P X) (w : World P) (op : Op) (g : Nat) :
     (step cfg env w op).1.grids[g]? =
-      (w.grids[g]?).map (fun d => if op.grid = g then d.add (effect op) else d) := by
-  have hmod : (w.grids.modify op.grid (fun d => d.add (effect op)))[g]? =
-      (w.grids[g]?).map (fun d => if op.grid = g then d.add (effect op) else d) := by
+      (w.grids[g]?).map (fun d => if op.grid = g then d.apply op else d) := by
+  have hmod : (w.grids.modify op.grid (fun d => d.apply op))[g]? =
+      (w.grids[g]?).map (fun d => if op.grid = g then d.apply op else d) := by
     rw [List.getElem?_modify]; rfl
   cases op with
   | materialise g' vs => simpa [step] using hmod
@@ -626,29 +626,37 @@ theorem step_grids {P X} (cfg : Cfg) (env : Env P X) (w : World P) (op : Op) (g 
     · simpa using hmod
 
 theorem run_grids {P X} (cfg : Cfg) (env : Env P X) (g : Nat) (ops : List Op) :
-    ∀ w : World P, (run cfg env w ops).1.grids[g]? = (w.grids[g]?).map (·.add (addedTo g ops)) := by
+    ∀ w : World P, (run cfg env w ops).1.grids[g]? = (w.grids[g]?).map (fun d => evolve g d ops) := by
   induction ops with
-  | nil => intro w; simp [run, addedTo, Ds.add_nil]
+  | nil => intro w; simp [run, evolve]
   | cons op ops ih =>
     intro w
-    simp only [run, addedTo]
+    simp only [run, evolve]
     rw [ih, step_grids]
     cases w.grids[g]? with
     | none => rfl
-    | some d =>
-      simp only [Option.map_some]
-      split
-      · rw [Ds.add_add]
-      · rw [← Ds.add_add, Ds.add_nil]
+    | some d => simp
+
+/-- the operations never touch the defining payload of a grid -/
+theorem evolve_core {P} (g : Nat) (ops : List Op) :
+    ∀ d : Ds P, (evolve g d ops).table = d.table ∧ (evolve g d ops).nodes = d.nodes := by
+  induction ops with
+  | nil => intro d; exact ⟨rfl, rfl⟩
+  | cons op ops ih =>
+    intro d
+    simp only [evolve]
+    split
+    · exact ih (d.apply op)
+    · exact ih d
 
 /-- **encode_history_free.**  After ANY history, what `grids[g].to_xarray(f)` returns is what it
-    returns in a fresh process for a grid carrying the variables the history added to grid `g`
-    itself: it depends neither on which other grids were encoded or worked on before, nor in which
-    formats, nor on how many times. -/
+    returns in a fresh process for the grid as the operations on `g` ITSELF have left it
+    (`evolve g d ops` skips every operation on another grid): it depends neither on which other
+    grids were encoded or worked on before, nor in which formats, nor on how many times. -/
 theorem encode_history_free {P X} (cfg : Cfg) (hc : cfg.copyTemplate = true) (env : Env P X)
     (w : World P) (ops : List Op) (g : Nat) (f : Fmt) (d : Ds P) (hd : w.grids[g]? = some d) :
     (step cfg env (run cfg env w ops).1 (.encode g f)).2 =
-      (encodeOne cfg env w.tmpl (d.add (addedTo g ops)) f).1 := by
+      (encodeOne cfg env w.tmpl (evolve g d ops) f).1 := by
   have h1 := run_grids cfg env g ops w
   rw [hd] at h1
   simp only [step, h1, Option.map_some, template_invariant cfg hc]
@@ -668,7 +676,7 @@ example :
       (encodeOne Cfg.repaired exEnv exWorld.tmpl { table := [[0, 1, 2]], nodes := [0, 1, 2], lonlat := true, extras := [] } .ugrid).1 := by
   have := encode_history_free Cfg.repaired rfl exEnv exWorld exOps 1 .ugrid
     { table := [[0, 1, 2]], nodes := [0, 1, 2], lonlat := true, extras := [] } rfl
-  simpa [addedTo, Op.grid, effect, Ds.add_nil, exOps] using this
+  simpa [evolve, Op.grid, exOps] using this
 
 /-! ## 3. derived quantities before encoding -/
 
@@ -727,15 +735,15 @@ example : PairsOK (({ table := [[0, 1, 2]], nodes := [0, 1, 2], lonlat := true, 
     the UGRID export of any grid is writable, self-consistent and reads back as that grid. -/
 theorem history_ugrid_rt {P X} (cfg : Cfg) (hc : cfg.copyTemplate = true) (hs : cfg.stripAttrs = true)
     (env : Env P X) (w : World P) (ht : TemplateOK w.tmpl) (ops : List Op) (g : Nat) (d : Ds P)
-    (hd : w.grids[g]? = some d) (hco : HasCoords cfg (d.add (addedTo g ops)).vars)
-    (hp : PairsOK (d.add (addedTo g ops)).vars) :
+    (hd : w.grids[g]? = some d) (hco : HasCoords cfg (evolve g d ops).vars)
+    (hp : PairsOK (evolve g d ops).vars) :
     ∃ o, (step cfg env (run cfg env w ops).1 (.encode g .ugrid)).2 = Out.ugrid o ∧
       o.serialisable = true ∧ o.Closed ∧ decodeUgrid o = some (d.table, d.nodes) := by
-  refine ⟨(encodeUgrid cfg w.tmpl (d.add (addedTo g ops))).1, ?_, ?_, ?_, ?_⟩
+  refine ⟨(encodeUgrid cfg w.tmpl (evolve g d ops)).1, ?_, ?_, ?_, ?_⟩
   · rw [encode_history_free cfg hc env w ops g .ugrid d hd]; rfl
   · exact ugrid_serialisable cfg hs _ _
   · exact topology_closed cfg _ _ ht.closed hco hp
-  · exact ugrid_rt cfg _ (d.add (addedTo g ops)) ht hco hp
+  · rw [ugrid_rt cfg _ (evolve g d ops) ht hco hp, (evolve_core g ops d).1, (evolve_core g ops d).2]
 
 /-! ### the code as it stands (`Cfg.asis`) -/
 
@@ -1550,5 +1558,27 @@ example : (Readers.decodeUgrid (c01Source (some 0) [[1, 2, 3, FILL], [1, 3, 4, 5
     (Readers.decodeUgrid (c01Source none [[1, 2, 3, FILL], [1, 3, 4, 5]])).toOption
       = some [[0, 1, 2, FILL], [0, 2, 3, 4]] := by
   decide
+
+/-! ## 8. the entry point does not matter -/
+
+/-- **entry_point_irrelevant.**  `Grid.to_xarray` and `Grid.encode_as` are two dispatchers onto
+    the same encoders: whenever both accept their argument for the same format, they return the
+    same export and leave the same template, for every grid, whatever was materialised on it —
+    the export is a function of (grid, format) only.  (The harness maps both entry points to the one
+    model operation `Op.encode`, so a difference between them in the code is a correspondence
+    mismatch, and — as in seeded change C07d — a failure of `topology_closed` on the one that lags.) -/
+theorem entry_point_irrelevant {P X} (cfg : Cfg) (env : Env P X) (tmpl : Topo) (d : Ds P)
+    (e1 e2 : Entry) (s1 s2 : String) (f : Fmt) (h1 : e1.parse s1 = some f) (h2 : e2.parse s2 = some f) :
+    exportVia cfg env tmpl d e1 s1 = exportVia cfg env tmpl d e2 s2 ∧
+    exportVia cfg env tmpl d e1 s1 = some (encodeOne cfg env tmpl d f) := by
+  unfold exportVia
+  rw [h1, h2]; exact ⟨rfl, rfl⟩
+
+/-- the accepted spellings, and that the two dispatchers cover the same formats -/
+theorem entry_spellings :
+    (["ugrid", "exodus", "scrip"].map (Entry.parse .toXarray) = [some .ugrid, some .exodus, some .scrip]) ∧
+    (["UGRID", "Exodus", "SCRIP"].map (Entry.parse .encodeAs) = [some .ugrid, some .exodus, some .scrip]) ∧
+    (["UGRID", "Ugrid", "netcdf"].map (Entry.parse .toXarray) = [none, none, none]) ∧
+    (["ugrid", "EXODUS", "scrip"].map (Entry.parse .encodeAs) = [none, none, none]) := by decide
 
 end UxVerif.C07
